@@ -15,12 +15,12 @@ import (
 type Emission struct {
 	Fn      *ssa.Function
 	Call    *ssa.Call
-	Types   []string             // constant event types this site can emit (sorted); empty = unresolved
-	Payload string               // named payload type, e.g. "ergo.StateEvent"
-	Fields  map[string]ssa.Value // payload field -> stored value (composite literal)
+	Types   []string               // constant event types this site can emit (sorted); empty = unresolved
+	Payload string                 // named payload type, e.g. "ergo.StateEvent"
+	Fields  map[string]ssa.Value   // payload field -> stored value (composite literal)
 	Stores  map[string][]ssa.Value // every value stored into the field (reassignments after the literal)
-	Lit     *ssa.Alloc           // the literal's cell, if any
-	Ordinal map[string]int       // per event type: 1-based ordinal within Fn in source order
+	Lit     *ssa.Alloc             // the literal's cell, if any
+	Ordinal map[string]int         // per event type: 1-based ordinal within Fn in source order
 }
 
 // emissions lists all newEvent call sites in module functions, in function/source order.
